@@ -1219,3 +1219,43 @@ class ExeDirMonitor:
     def after_run_md(self, rig, out):
         from infretis.classes.engines.enginebase import EngineBase
         EngineBase.propagate = self.orig
+
+
+# --------------------------------------------------------------------------
+class VelSettingsMonitor:
+    """C16 rider: every velocity regeneration of a move - also those of the
+    sub-moves of a wire-fencing move - must be asked for with the velocity
+    settings of the configuration (zero_momentum in particular)."""
+
+    def before_run_md(self, rig, md_items):
+        import infretis.core.tis as itis
+        self.want = rig.state.config["simulation"]["tis_set"].get(
+            "zero_momentum")
+        self.wrapped = []
+        mon = self
+        for name, engs in itis.ENGINES.items():
+            for eng in engs:
+                orig = eng.modify_velocities
+
+                def mv(system, vel_settings, _o=orig, _e=eng):
+                    rig.reach("velocity_settings_passed")
+                    got = vel_settings.get("zero_momentum", "<absent>") \
+                        if isinstance(vel_settings, dict) else "<no dict>"
+                    if got != mon.want:
+                        rig.violate(
+                            "velocity-settings-not-passed-to-engine",
+                            f"modify_velocities was asked with zero_momentum="
+                            f"{got!r}, the configuration says {mon.want!r}",
+                            moves=[md_items["mc_moves"][e + 1]
+                                   for e in md_items["picked"]])
+                    return _o(system, vel_settings)
+                eng.modify_velocities = mv
+                self.wrapped.append((eng, orig))
+
+    def after_run_md(self, rig, out):
+        for eng, orig in self.wrapped:
+            try:
+                del eng.modify_velocities
+            except AttributeError:
+                eng.modify_velocities = orig
+        self.wrapped = []
